@@ -31,7 +31,8 @@ LEVEL_TEXT = (
     "where each connection attempt may succeed, fail, stall or be delayed, tasks are cancelled and the connector is "
     "closed before seeded loop steps. After every step: connections handed out + attempts in progress <= limit (and per "
     "host); at quiescence: no task waits for a slot while capacity is free, nothing stays counted after all tasks ended, "
-    "close() closes every transport and fails every waiter. Sampling, not proof."
+    "close() closes every transport and fails every request queued for a slot at that instant (none of them goes on to "
+    "connect on the closed connector or stays blocked). Sampling, not proof."
 )
 LEVEL_NOTE = (
     "Trusted: the harness' own counters (Connection subclass + _create_connection wrapper), SimNet. The connector's own "
@@ -46,6 +47,9 @@ RULE = (
     "12 % of runs route requests through an HTTP proxy: http:// targets in absolute form, https:// targets through a CONNECT "
     "tunnel the proxy opens, opens late, refuses (403/407/502, with or without closing), drops or never answers, followed by "
     "a TLS upgrade that succeeds, fails or stalls. "
+    "12 % of runs aim the close at a state: d ms after at least k requests are queued for a slot; a scheduled close goes through "
+    "connector.close() or (30 %) through close() of the session owning the connector, and in 35 % of the runs with a close every "
+    "connection attempt / name lookup that starts after it gets its own outcome (ok, refused, stalls for ever). "
     "Non-trivial: at least one task had to wait for a slot. Distinct = interleaving signature."
 )
 COMPONENTS = {
@@ -58,6 +62,10 @@ COMPONENTS = {
 ASSUMPTIONS = [
     "'in use' = a Connection object handed out and not yet released or closed; 'being established' = inside _create_connection",
     "liveness is judged only after faults stop and only in runs without client timeouts for the waiting task",
+    "'waiter' for the close clause = a request whose future is queued (not completed) in the connector at the instant close() "
+    "runs; 'failed' = its task ended with an exception or cancellation within 5 virtual seconds without having started a "
+    "connection attempt or been handed a connection after the close. Requests inside the waiting routine whose wake-up was "
+    "issued before the close are not waiters (counted, not identified: in-routine minus queued of them may go on)",
     "'endpoint' for limit_per_host = host, port, scheme and route (direct or via the proxy), i.e. what the pool is keyed by; "
     "a tunnel being set up through the proxy counts as a connection being established to the https endpoint",
 ]
@@ -128,6 +136,22 @@ def gen(rng, tier, index):
             # outcome of the k-th TLS upgrade (later ones: ok, no delay)
             "tls": [[rng.choice(["ok", "ok", "fail", "stall"]), rng.choice([0, 1, 3])] for _ in range(rng.choice([0, 0, 1, 3]))],
         }
+    # close() aimed at a state instead of a blind step number (drawn after everything else): the connector is closed
+    # `delay` ms after the moment at least `waiters` requests are queued for a slot - the state the clause "closing the
+    # connector fails every waiter" speaks about.  A limit is needed for anybody to queue.
+    if rng.random() < 0.12:
+        scn["close_when"] = {"waiters": rng.choice([1, 1, 2]), "delay": rng.choice([0, 0, 1, 3])}
+        if not scn["limit"] and not scn["lph"]:
+            scn["limit"] = rng.choice([1, 1, 2])
+    if scn["close_at"] is not None or scn.get("close_when"):
+        # the other public way to close a connector: closing the session that owns it
+        if rng.random() < 0.3:
+            scn["close_via"] = "session"
+        # what happens to connection attempts that *start* after the close (an unreachable peer, a slow name server):
+        # nothing the close could have cancelled, so whoever is sent on to connect then is on his own
+        if rng.random() < 0.35:
+            scn["after_close"] = {"connect": [rng.choice(["ok", "stall", "refuse", "stall"]), rng.choice([0, 1, 5])],
+                                  "dns": rng.choice(["ok", "ok", "stall"])}
     return scn
 
 
@@ -154,6 +178,24 @@ def shrink(scn):
         for i, (o, d) in enumerate(px["tls"]):
             if d:
                 yield dict(scn, proxy=dict(px, tls=px["tls"][:i] + [[o, 0]] + px["tls"][i + 1:]))
+    if scn.get("after_close"):
+        ac = scn["after_close"]
+        yield {k: v for k, v in scn.items() if k != "after_close"}
+        if ac["dns"] != "ok":
+            yield dict(scn, after_close=dict(ac, dns="ok"))
+        if ac["connect"] != ["ok", 0]:
+            yield dict(scn, after_close=dict(ac, connect=["ok", 0]))
+            if ac["connect"][1] and ac["connect"][0] != "ok":
+                yield dict(scn, after_close=dict(ac, connect=[ac["connect"][0], 0]))
+    if scn.get("close_via"):
+        yield {k: v for k, v in scn.items() if k != "close_via"}
+    if scn.get("close_when"):
+        cw = scn["close_when"]
+        yield {k: v for k, v in scn.items() if k != "close_when"}
+        if cw["delay"]:
+            yield dict(scn, close_when=dict(cw, delay=0))
+        if cw["waiters"] > 1:
+            yield dict(scn, close_when=dict(cw, waiters=1))
     if scn["close_at"] is not None:
         yield dict(scn, close_at=None)
     if scn["cancels"]:
@@ -201,6 +243,9 @@ class Harness:
         self.tls_ok = 0
         self.tr_by_task = {}  # task name -> client transports it opened (in order)
         self.tr_end = {}      # transport name -> (exception type that ended the attempt which opened it, connector closed then)
+        self.in_queue = {}    # task name -> depth inside the connector's wait-for-a-slot routine
+        self.snap = None      # taken at the instant close() runs: who was waiting for a slot then
+        self.post_close_attempts = 0
 
 
 def run(scn, ch, log=False):
@@ -233,6 +278,8 @@ def run(scn, ch, log=False):
             t = asyncio.current_task()
             if t is not None:
                 H.got_conn.add(t.get_name())
+                if H.snap is not None and t.get_name() in H.snap["tasks"]:
+                    H.snap["went_on"].setdefault(t.get_name(), "was handed a connection")
 
         def close(self):
             if self._protocol is not None:
@@ -257,6 +304,10 @@ def run(scn, ch, log=False):
             t = asyncio.current_task()
             name = t.get_name() if t is not None else "?"
             H.establishing.add(name)
+            if H.snap is not None:
+                H.post_close_attempts += 1
+                if name in H.snap["tasks"]:
+                    H.snap["went_on"].setdefault(name, "started a connection attempt")
             mine = H.tr_by_task.setdefault(name, [])
             n0 = len(mine)
             try:
@@ -269,6 +320,21 @@ def run(scn, ch, log=False):
                 H.est -= 1
                 H.est_host[host] -= 1
                 H.establishing.discard(name)
+
+    if hasattr(aiohttp.TCPConnector, "_wait_for_available_connection"):
+        # who is waiting for a slot: counted around the connector's own routine (delegates, changes nothing)
+        async def _wait_for_available_connection(self, *a, **kw):
+            t = asyncio.current_task()
+            name = t.get_name() if t is not None else "?"
+            H.in_queue[name] = H.in_queue.get(name, 0) + 1
+            try:
+                return await aiohttp.TCPConnector._wait_for_available_connection(self, *a, **kw)
+            finally:
+                H.in_queue[name] -= 1
+                if not H.in_queue[name]:
+                    del H.in_queue[name]
+
+        TConnector._wait_for_available_connection = _wait_for_available_connection
 
     connector_mod.Connection = TConn
     try:
@@ -386,7 +452,12 @@ def run(scn, ch, log=False):
                 loop.start_tls = start_tls
             script = [list(x) for x in scn["connect"]]
 
+            after_close = scn.get("after_close")
+
             def connect_script(addr, n):
+                if after_close and H.snap is not None:
+                    loop.faults["connect_after_close_" + after_close["connect"][0]] += 1
+                    return after_close["connect"][0], after_close["connect"][1] * 0.001
                 if n <= len(script):
                     outcome, d = script[n - 1]
                     return outcome, d * 0.001
@@ -403,6 +474,9 @@ def run(scn, ch, log=False):
 
             def dns_script(host, n):
                 dns_state["n"] += 1
+                if after_close and H.snap is not None and after_close["dns"] == "stall":
+                    loop.faults["dns_after_close_stall"] += 1
+                    return "stall", 0
                 m = scn["dns"]
                 if m == "fail_once" and dns_state["n"] == 1:
                     return "fail", 0.001
@@ -479,7 +553,36 @@ def run(scn, ch, log=False):
             loop.run_sim(setup(), vt_cap=1)
             conn = state["connector"]
 
+            def queued_now():
+                return sum(1 for q in conn._waiters.values() for f in q if not f.done())
+
+            async def closer():
+                # the snapshot and the close happen in one step: close() reaches its synchronous part without yielding
+                H.snap = {"tasks": sorted(H.in_queue) if hasattr(conn, "_wait_for_available_connection") else
+                          sorted(f"w{i}" for i, t in tasks.items() if not t.done() and phase.get(i) == "requesting"
+                                 and f"w{i}" not in H.got_conn and f"w{i}" not in H.establishing),
+                          "queued": queued_now(), "went_on": {}}
+                loop.note("close_runs", f"{len(H.snap['tasks'])}:{H.snap['queued']}")
+                if scn.get("close_via") == "session":
+                    await state["session"].close()
+                else:
+                    await conn.close()
+
+            def do_close():
+                if not state["closed"]:
+                    state["closed"] = True
+                    loop.faults["connector_close"] += 1
+                    loop.note("connector_close", scn.get("close_via") or "")
+                    state["close_task"] = loop.create_task(closer(), name="close")
+
+            close_when = scn.get("close_when")
+            armed = [False]
+
             def inv():
+                if close_when and not armed[0] and not state["closed"] and conn._waiters and queued_now() >= close_when["waiters"]:
+                    armed[0] = True
+                    loop.faults["close_aimed_at_waiters"] += 1
+                    loop.sim_call_later(close_when["delay"] * 0.001, do_close)
                 if state["closed"]:
                     return  # after close() every new connection is closed at once; limits are moot
                 tot = len(H.out) + H.est
@@ -517,12 +620,6 @@ def run(scn, ch, log=False):
                         t.cancel()
                 loop.at_step.setdefault(base + k, []).append(c)
             if scn["close_at"] is not None:
-                def do_close():
-                    if not state["closed"]:
-                        state["closed"] = True
-                        loop.faults["connector_close"] += 1
-                        loop.note("connector_close", "")
-                        state["close_task"] = loop.create_task(conn.close(), name="close")
                 loop.at_step.setdefault(base + scn["close_at"], []).append(do_close)
 
             loop.run_sim(None, vt_cap=loop.time() + 5.0, step_cap=200_000)
@@ -552,6 +649,25 @@ def run(scn, ch, log=False):
                                 f"in use={len(H.out)} establishing={H.est} limit={limit} per_host={lph}; "
                                 f"connector waiters={waiting} acquired={len(conn._acquired)}")
                         break
+            elif H.snap is not None:
+                # "closing the connector fails every waiter": whoever was queued for a slot at the instant close() ran
+                # must have ended with a failure by now - not gone on to open a connection on the closed connector, not
+                # been handed one, not still be sitting in the queue.  A caller in the waiting routine whose wake-up had
+                # already been issued before the close (its future completed, not queued any more) is no waiter and may
+                # go on; `in routine - queued` of them are allowed for.
+                snap = H.snap
+                byname = {f"w{i}": i for i in tasks}
+                still = [n_ for n_ in snap["tasks"] if n_ not in snap["went_on"] and n_ in byname and not tasks[byname[n_]].done()]
+                not_failed = sorted(set(snap["went_on"]) | set(still))
+                allowed = len(snap["tasks"]) - snap["queued"]
+                if len(not_failed) > allowed:
+                    hung = [n_ for n_ in snap["went_on"] if n_ in byname and not tasks[byname[n_]].done()]
+                    kind = ("connects_after_close" + (":never_fails" if hung else "")) if snap["went_on"] else "still_queued"
+                    violate("close", "waiter_not_failed_by_close:" + kind,
+                            f"{snap['queued']} request(s) were queued for a slot when close() ran (in the waiting routine: "
+                            f"{snap['tasks']}); afterwards {dict(sorted(snap['went_on'].items()))}, still blocked without either: {still}, "
+                            f"still pending 5 s later: {sorted(hung + still)}; at most {allowed} (already woken before the close) "
+                            f"may go on; phases={phase}")
             # everything still running is released by cancelling the remaining tasks
             for i in pending:
                 tasks[i].cancel()
@@ -600,7 +716,9 @@ def run(scn, ch, log=False):
                 "violations": viols, "nontrivial": bool(H.waited), "sig": st["sig"], "digest": st["digest"],
                 "steps": st["steps"], "vtime": st["vtime"], "faults": st["faults"],
                 "probes": {"waited": int(H.waited), "handouts": H.handouts, "max_in_use": H.max_seen,
-                           "closed_midway": int(state["closed"]), "cancel_fired": st["faults"].get("cancel", 0),
+                           "closed_midway": int(state["closed"]), "closed_with_waiters_queued": int(bool(H.snap and H.snap["queued"])),
+                           "attempts_after_close": H.post_close_attempts, "closed_via_session": int(bool(H.snap) and scn.get("close_via") == "session"),
+                           "cancel_fired": st["faults"].get("cancel", 0),
                            "proxy_connects": srv.connects, "tunnels_refused": st["faults"].get("connect_refused_by_proxy", 0),
                            "tls_upgrades": H.tls_ok,
                            "phases_" + "_".join(sorted({p.split(":")[0] for p in phase.values()})): 1},
